@@ -193,6 +193,28 @@ func runC03(e *Engine, r *Report, tier string) {
 						}
 						return Continue
 					})
+					if ai.field == "" {
+						// custom rendering: <strings.Builder>.String() fed by WriteString(<something derived from a field>)
+						if bc, ok := stripConv(v).(*ssa.Call); ok && callName(bc) == "String" && len(callArgs(bc)) == 1 {
+							if buf, ok := callArgs(bc)[0].(*ssa.Alloc); ok {
+								for _, ref := range *buf.Referrers() {
+									wc, ok := ref.(*ssa.Call)
+									if !ok || !strings.HasPrefix(callName(wc), "Write") {
+										continue
+									}
+									for _, wa := range callArgs(wc)[1:] {
+										e.Slice(wa, SliceOpts{MaxDepth: 8, ThroughCalls: true}, func(x ssa.Value) Verdict {
+											if n, stt, ok := fieldName(x); ok && namedTypeName(stt) == namedTypeName(named) {
+												ai.field = n // hashed, but through a custom rendering: language unknown -> unrestricted
+												return Accept
+											}
+											return Continue
+										})
+									}
+								}
+							}
+						}
+					}
 					args = append(args, ai)
 				}
 			}
